@@ -933,8 +933,10 @@ def stall_probe(ctx, quick, prop):
             if role == "cb" and at[0].split(".")[-1] in ("_dispatch_new", "dispatch_next", "dispatch_one_batch", "_dispatch",
                                                           "_register_outcome", "_retrieve_result", "__call__"):
                 for sc in (STALL_SCENARIOS[0], STALL_SCENARIOS[1], STALL_SCENARIOS[3]) if (critical or not quick) else (STALL_SCENARIOS[1],):
-                    cases.append(dict(sc, backend="cf", pre=1 if sc["pre"] == "n_jobs" else sc["pre"], N=max(sc["N"], 9),
-                                      at=at, role=role, hits=list(range(1, 11)), delay=0.025, watchdog=40))
+                    # every visit stalled (order kept) and every other visit stalled (later callbacks overtake)
+                    for hits in (list(range(1, 11)), [1, 3, 5, 7, 9, 11]):
+                        cases.append(dict(sc, backend="cf", n_jobs=3, pre=rng.choice([2, 3, "2*n_jobs"]), N=max(sc["N"], 10),
+                                          at=at, role=role, hits=hits, delay=0.03, watchdog=40))
     nproc = max(1, min(common.NCPU - 2, 12))
     chunks = [cases[i::nproc] for i in range(nproc)]
     script = os.path.join(common.ROOT, "harness", "impl", "m1_stall.py")
